@@ -100,6 +100,7 @@ type Case struct {
 	SiblingOff    int // selects the key of the sibling issuer (same name and SKI as the final issuer, another key)
 	SiblingFirst  bool
 	PoisonPos     int // clamped to [0, len(Exts)]
+	PoisonNonCrit bool // the poison extension is NOT flagged critical (RFC 6962 wants it critical; only route agreement is asserted then)
 	SCTPos        int // clamped to [0, len(extensions of E)]
 	ExtraInChain  bool // append a fourth certificate to the submitted chain
 
@@ -370,6 +371,7 @@ func genCase(t *rapid.T, signedAnchor bool) Case {
 	}
 	// positions are uniform over the slots that exist (the SCT position is clamped by the builder when the
 	// pre-issuer rewrite removes the AKI)
+	c.PoisonNonCrit = rapid.IntRange(0, 5).Draw(t, "poisonnoncrit") == 0
 	c.PoisonPos = rapid.IntRange(0, len(c.Exts)).Draw(t, "poisonpos")
 	c.SCTPos = rapid.IntRange(0, len(c.Exts)+1).Draw(t, "sctpos")
 	c.ExtraInChain = rapid.IntRange(0, 3).Draw(t, "extra") == 0
@@ -592,6 +594,7 @@ type World struct {
 
 	Content []pki.Ext // non-CT extensions of C, in order
 	ExtsE   []pki.Ext // extensions of the expected entry, in order
+	Poison  pki.Ext   // the poison extension as used in this case (critical unless PoisonNonCrit)
 	P, PTBS []byte    // precertificate
 	PoisonP int
 	E       []byte // expected entry TBS (byte-level reference)
@@ -756,7 +759,9 @@ func Build(c *Case, realSig bool) *World {
 		w.Content = append(w.Content, extOf(e, i))
 	}
 	w.PoisonP = clamp(c.PoisonPos, len(w.Content))
-	w.PTBS = w.tbsOf(c, issuerOfP, insertExt(w.Content, w.PoisonP, pki.Poison()))
+	w.Poison = pki.Poison()
+	w.Poison.Critical = !c.PoisonNonCrit
+	w.PTBS = w.tbsOf(c, issuerOfP, insertExt(w.Content, w.PoisonP, w.Poison))
 	w.P = pki.SignTBS(w.PTBS, signerOfP, w.Alg)
 
 	// ground-truth extension list of the entry
@@ -977,6 +982,9 @@ func (w *World) classify(c *Case, v *harness.Verdict) {
 		v.Class("route=direct")
 	}
 	v.Class("poison="+posClass(w.PoisonP, len(w.Content)), "sctlist="+posClass(w.SCTq, len(w.ExtsE)))
+	if c.PoisonNonCrit {
+		v.Class("poison-noncritical")
+	}
 	v.Class("issuer-ski=" + []string{"absent", "key-derived", "pooled"}[min(c.IssuerSKI, 2)])
 	v.Class(fmt.Sprintf("exts=%d", len(w.Content)))
 	v.Class("validity="+timeClass(c.NotBefore)+"/"+timeClass(c.NotAfter), "key="+c.KeyKind, "alg="+w.Alg)
